@@ -2,6 +2,7 @@ package sigsrv
 
 import (
 	"fmt"
+	"math/rand/v2"
 	"strings"
 	"testing"
 
@@ -17,6 +18,9 @@ import (
 //	KL<i> / KS<i><j>   cancel the newest such call
 //	OL<i> / OS<i><j>   cancel the oldest such call that is still running
 //	H<i> / U<i>  hold / release the gate of peer i
+//	TL<i> / TS<i><j>   stall the stream of the newest such call: its next Send
+//	             blocks until R, even if the call is cancelled or replaced meanwhile
+//	R            release every stalled stream
 //	E            cancel every call, quiesce, check that no state is left
 //	|            quiesce and evaluate the oracle
 type c25case struct {
@@ -35,7 +39,7 @@ func (c c25case) String() string {
 func TestC25(t *testing.T) {
 	r := vf.Start(t, "C25", vf.Exploration)
 	defer r.Finish()
-	r.SetRule("case = PRNG program over 3 peers of listen/session starts (1-3 concurrent duplicates per key), cancellations of the newest / oldest running call of a key, gate hold/release, cancel-everything, executed one op at a time or in bursts with quiescence points. Oracle at every quiescent point with all gates open: per key (listen:X / session:X->Y) at most one call is running; a call the harness did not cancel has ended only with ErrUserpedListen / ErrUserpedSession; if no call of the key was cancelled exactly one is running; a call seen running does not survive a call started after that quiescent point; when no call is running VerifStateSizes() == (0,0). Non-trivial = at least one call was started (every such case ends with all calls cancelled and a leftover check); distinct = program")
+	r.SetRule("case = PRNG program over 3 peers of listen/session starts (1-3 concurrent duplicates per key), cancellations of the newest / oldest running call of a key, gate hold/release, cancel-everything, executed one op at a time or in bursts with quiescence points; plus programs around calls that END LATE: a Listen / Session call is parked in a Send (SetPeer / ClearPeer / Opened / Closed frame) on a stalled stream that not even a cancellation wakes, is replaced and / or cancelled while parked, every other call keeping the relay state of that peer / pair alive ends (trackers released), the same keys register again on fresh state with 0-2 further replacements (in half of the programs exactly as many as the parked call had seen), and only then the stalled write completes; every step there is followed by a quiescent point. Oracle at every quiescent point with all gates open: per key (listen:X / session:X->Y) at most one call is running; a call the harness did not cancel has ended only with ErrUserpedListen / ErrUserpedSession, and only if another call of its key was started in the same or a later quiescence interval (every call started before a quiescent point has registered by then, so an older call cannot be the replacer: the newest call of a key never ends as replaced); if no call of the key was cancelled exactly one is running; a call seen running does not survive a call started after that quiescent point; when no call is running VerifStateSizes() == (0,0). Non-trivial = at least one call was started (every such case ends with all calls cancelled and a leftover check); distinct = program")
 	rng := r.Rand("c25")
 	pool := keys.Pool(rng, 3)
 	n := r.N(400, 15000)
@@ -106,6 +110,11 @@ func TestC25(t *testing.T) {
 		}
 		cases = append(cases, c25case{ops: ops, seq: seq})
 	}
+	// calls that END LATE (see genC25Late)
+	lrng := r.Rand("c25-late")
+	for k := r.N(140, 4000); k > 0; k-- {
+		cases = append(cases, c25case{ops: genC25Late(lrng), seq: false})
+	}
 	runParallel(len(cases), 16, func(i int) {
 		if i%16 == 0 {
 			r.Begin(fmt.Sprintf("batch around case %d: %s", i, cases[i]))
@@ -122,6 +131,36 @@ func runC25(r *vf.Run, pool []*keys.Identity, idx int, c c25case) {
 	check := func() bool {
 		if !w.quiesce() {
 			return false
+		}
+		// evidence only: calls parked in a Send on a stalled stream, and whether the
+		// relay state their registration lived in has been released / re-created
+		for _, cl := range w.h.Calls() {
+			if !cl.AtStall() {
+				continue
+			}
+			r.Count("c25_calls_parked_at_stalled_stream", 1)
+			if cl.Killed() {
+				r.Count("c25_parked_call_cancelled", 1)
+			}
+			others := 0
+			for _, o := range byKey[callKeyShort(w, cl)] {
+				if ret, _ := o.Returned(); o != cl && !ret {
+					others++
+				}
+			}
+			if cl.Listen {
+				if ex, _, _ := w.h.Srv.VerifPeerState(cl.Src); !ex {
+					r.Count("c25_parked_listen_while_peer_state_released", 1)
+				} else if others > 0 {
+					r.Count("c25_parked_listen_beside_running_listen", 1)
+				}
+			} else {
+				if _, a, b := w.h.Srv.VerifSessionEpoch(cl.Src, cl.Dst); !a && !b {
+					r.Count("c25_parked_session_while_session_state_released", 1)
+				} else if others > 0 {
+					r.Count("c25_parked_session_beside_running_session", 1)
+				}
+			}
 		}
 		w.checkUnique()
 		w.checkNoLeftover()
@@ -188,6 +227,22 @@ func runC25(r *vf.Run, pool []*keys.Identity, idx int, c c25case) {
 				w.kill(cl)
 				r.Count("op_cancel", 1)
 			}
+		case op[0] == 'T':
+			if cl := pick(op[1:], false); cl != nil {
+				if ret, _ := cl.Returned(); !ret {
+					cl.Stall()
+					w.logf("stall the stream of %s", w.cstr(cl))
+					r.Count("op_stall_stream", 1)
+				}
+			}
+		case op[0] == 'R':
+			for _, cl := range w.h.Calls() {
+				if cl.Stalled() {
+					w.logf("stalled stream of %s resumes", w.cstr(cl))
+					cl.Unstall()
+					r.Count("op_unstall_stream", 1)
+				}
+			}
 		case op[0] == 'H':
 			w.h.Gate(pool[int(op[1]-'0')].String()).Hold()
 			w.logf("hold gate of P%c", op[1])
@@ -231,4 +286,131 @@ func runC25(r *vf.Run, pool []*keys.Identity, idx int, c c25case) {
 	if idx < 3 {
 		r.Sample(map[string]any{"program": c.String(), "history": w.dump()})
 	}
+}
+
+// callKeyShort maps a call to the program's key notation (L<i> / S<i><j>).
+func callKeyShort(w *world, c *g7sig.Call) string {
+	idx := func(pid string) int {
+		for i, id := range w.ids {
+			if id.String() == pid {
+				return i
+			}
+		}
+		return 9
+	}
+	if c.Listen {
+		return fmt.Sprintf("L%d", idx(c.Src))
+	}
+	return fmt.Sprintf("S%d%d", idx(c.Src), idx(c.Dst))
+}
+
+// genC25Late generates programs around calls that END LATE: a Listen / Session
+// call is parked in a Send on a stalled stream (the frame is a SetPeer /
+// ClearPeer / Opened / Closed caused by another peer), is then replaced and / or
+// cancelled while parked, every other call that keeps the relay state of that
+// peer / pair alive ends (the trackers are released), the same keys are
+// registered again on fresh state (with 0-2 further replacements, so that
+// counters of the fresh state pass through the values the parked call saw), and
+// only then the stalled write completes. Each step is followed by a quiescent
+// point, so the order of registrations is known to the oracle.
+func genC25Late(rng *rand.Rand) []string {
+	var ops []string
+	add := func(s ...string) { ops = append(ops, s...) }
+	b := rng.IntN(2)
+	c := 1 - b
+	if rng.IntN(3) == 0 {
+		c = 2
+	}
+	k0 := rng.IntN(3) // replacements the parked call has seen before it registered
+	j := k0           // replacements on the fresh state before the parked call ends
+	if rng.IntN(2) == 0 {
+		j = rng.IntN(3)
+	}
+	if rng.IntN(5) < 3 {
+		// a Listen call ends late
+		L, S := fmt.Sprintf("L%d", b), fmt.Sprintf("S%d%d", c, b)
+		pre := rng.IntN(3) == 0 // a wanting session exists before: the stalled frame is its ClearPeer
+		if pre && rng.IntN(2) == 0 {
+			add(S+"*1", "|")
+			pre = false
+			add("K"+S, "|")
+		}
+		for i := 0; i <= k0; i++ {
+			add(L+"*1", "|")
+		}
+		if pre {
+			add(S+"*1", "|")
+		}
+		add("T" + L)
+		if pre {
+			add("K" + S)
+		} else {
+			add(S + "*1")
+		}
+		add("|")
+		switch rng.IntN(5) {
+		case 0, 1, 2:
+			add(L+"*1", "|") // replaced while parked
+		case 3:
+			add(L+"*1", "|", "O"+L, "|") // replaced, then its client goes away too
+		case 4:
+			add("O"+L, "|") // only cancelled: it keeps its registration until the write completes
+		}
+		// everything else that keeps the state of peer b alive ends
+		add("K"+L, "K"+S, "|")
+		// the same keys register again on fresh state
+		for i := 0; i <= j; i++ {
+			add(L+"*1", "|")
+		}
+		if rng.IntN(2) == 0 {
+			add(S+"*1", "|")
+		}
+	} else {
+		// a Session call ends late
+		A, B := fmt.Sprintf("S%d%d", b, c), fmt.Sprintf("S%d%d", c, b)
+		if rng.IntN(3) == 0 {
+			add(fmt.Sprintf("L%d*1", c), "|") // the destination also listens
+		}
+		pre := rng.IntN(3) == 0 // the partner is attached before: the stalled frame is Closed
+		if pre {
+			add(B+"*1", "|")
+		}
+		for i := 0; i <= k0; i++ {
+			add(A+"*1", "|")
+		}
+		add("T" + A)
+		if pre {
+			add("K" + B)
+		} else {
+			add(B + "*1")
+		}
+		add("|")
+		switch rng.IntN(5) {
+		case 0, 1, 2:
+			add(A+"*1", "|")
+		case 3:
+			add(A+"*1", "|", "O"+A, "|")
+		case 4:
+			add("O"+A, "|")
+		}
+		add("K"+A, "K"+B, "|")
+		for i := 0; i <= j; i++ {
+			if rng.IntN(2) == 0 {
+				add(A+"*1", "|")
+			} else {
+				add(A+"*1", B+"*1", "|")
+			}
+		}
+		if rng.IntN(2) == 0 {
+			add(B+"*1", "|")
+		}
+	}
+	add("R", "|")
+	switch rng.IntN(3) {
+	case 0:
+		add("E")
+	case 1:
+		add(fmt.Sprintf("L%d*1", b), "|")
+	}
+	return ops
 }
